@@ -176,6 +176,30 @@ func C01(c *Ctx) {
 	for _, e := range ctl {
 		kinds[e.Kind] = true
 	}
+	{
+		// positive control for the module-object write rule: four deliberate writes, one harmless local copy
+		var ffs []*ssa.Function
+		for _, f := range w.Funcs {
+			if ir.IsFixture(f) && strings.Contains(fn(f), "fixtures/c01") {
+				ffs = append(ffs, f)
+			}
+		}
+		sortFuncs(ffs)
+		mark := len(r.Obls)
+		keeperMutationRule(c, ffs, "A6.keeper-mutation")
+		hit := map[string]bool{}
+		for _, o := range r.Obls[mark:] {
+			if o.Status == "violated" {
+				for _, nm := range []string{"MutatesHeld", "MutatesMap", "MutatesViaHelper", "MutatesField", "LocalCopyOnly"} {
+					if strings.Contains(o.Key, nm) {
+						hit[nm] = true
+					}
+				}
+			}
+		}
+		r.Obls = r.Obls[:mark]
+		r.Control("A6.keeper-mutation", "fixtures/c01", hit["MutatesHeld"] && hit["MutatesMap"] && hit["MutatesViaHelper"] && hit["MutatesField"] && !hit["LocalCopyOnly"])
+	}
 	r.Control("A6.sources", "fixtures/c01", kinds["WallClock"] && kinds["Goroutine"] && kinds["MapRange"] && kinds["Rand"] && kinds["GlobalWrite"])
 }
 
@@ -258,6 +282,7 @@ func mapRange(c *Ctx, f *ssa.Function, e ir.Effect, path string) {
 		return hdr.Dominates(b) && ir.ReachesFrom(f, b, 0, hdr.Instrs[0], ir.Cut{}) || b == hdr
 	}
 	var problems []string
+	sentinels := map[string]bool{} // distinct registered errors returned from inside the loop
 	for _, b := range f.Blocks {
 		if !hdr.Dominates(b) {
 			continue
@@ -294,6 +319,7 @@ func mapRange(c *Ctx, f *ssa.Function, e ir.Effect, path string) {
 				ok := ev.Op == "const" && ev.Name == "nil"
 				if ev.Op == "call" && (strings.HasSuffix(ev.Name, "errors.Wrap") || strings.HasSuffix(ev.Name, "errors.Wrapf")) && len(ev.Args) >= 1 && ev.Args[0].Op == "global" {
 					ok = true
+					sentinels[ev.Args[0].Name] = true
 				}
 				if !ok {
 					problems = append(problems, "error returned from the loop is not a wrapped loop-invariant sentinel: "+ev.String())
@@ -331,6 +357,10 @@ func mapRange(c *Ctx, f *ssa.Function, e ir.Effect, path string) {
 				}
 			}
 		}
+	}
+	if len(sentinels) > 1 {
+		// which element is met first decides the error code (part of the DeliverTx result and of LastResultsHash)
+		problems = append(problems, "returns inside the loop wrap different registered errors "+setStr(sentinels)+": the result code depends on iteration order")
 	}
 	// values accumulated in the loop must not leave it other than through map inserts / errors
 	r.Require(len(problems) == 0, "A6.map-range", key, pos(c, e.Site), "iteration over a map is order-insensitive: no store/event/bank effect in the body, only map inserts and errors wrapping a loop-invariant sentinel leave the loop", strings.Join(problems, "; ")+" (via "+path+")")
@@ -384,36 +414,65 @@ func floatOp(c *Ctx, f *ssa.Function, e ir.Effect, path string) {
 	r.Require(!fusable, "A6.float", fn(f)+"|"+e.Method, pos(c, e.Site), "no fusable floating-point multiply-add on a consensus path (result differs across architectures)", "x*y ± z on floats via "+path)
 }
 
-// keeperMutation: no store through a keeper / decorator / msgServer receiver or pointer parameter.
-func keeperMutation(c *Ctx, fs []*ssa.Function) {
+func callName2(call ssa.CallInstruction) string {
+	cc := call.Common()
+	if cc.IsInvoke() {
+		return cc.Method.Name()
+	}
+	if sc := cc.StaticCallee(); sc != nil {
+		return ir.ShortFn(sc)
+	}
+	return "function value"
+}
+
+// keeperMutation: no write to memory reachable from a long-lived module object (keeper, server,
+// decorator, app module — recognised structurally, see holder.go): neither a field store through a
+// pointer receiver, nor a store or map update through a pointer/map/slice the object holds.
+func keeperMutation(c *Ctx, fs []*ssa.Function) { keeperMutationRule(c, fs, "A6.keeper-mutation") }
+
+func keeperMutationRule(c *Ctx, fs []*ssa.Function, rule string) {
 	r := c.R
 	n := 0
 	for _, f := range fs {
 		for _, b := range f.Blocks {
 			for _, in := range b.Instrs {
-				st, ok := in.(*ssa.Store)
-				if !ok {
+				var targets []ssa.Value
+				what := "store"
+				switch x := in.(type) {
+				case *ssa.Store:
+					targets = append(targets, x.Addr)
+				case *ssa.MapUpdate:
+					targets = append(targets, x.Map)
+					what = "map update"
+				case ssa.CallInstruction:
+					// a pointer held by the object handed to a function that writes through it
+					c.eachWrittenArg(x, func(arg ssa.Value) { targets = append(targets, arg) })
+					what = "write (in " + callName2(x) + ")"
+				default:
 					continue
 				}
-				root, depth := addrRoot(st.Addr)
-				p, ok := root.(*ssa.Parameter)
-				if !ok || depth == 0 {
-					continue
+				var bases []memBase
+				for _, target := range targets {
+					sharedBases(target, 0, map[ssa.Value]bool{}, &bases)
 				}
-				named, _ := ptrElem(p.Type()).(*types.Named)
-				if named == nil {
-					continue
-				}
-				nm := named.Obj().Name()
-				if nm == "Keeper" || strings.HasSuffix(nm, "Decorator") || nm == "msgServer" || nm == "AppModule" || nm == "App" || nm == "Migrator" {
+				for _, mb := range bases {
+					nt, hold := c.IsHolder(mb.P.Type())
+					if !hold {
+						continue
+					}
+					_, ptr := mb.P.Type().(*types.Pointer)
+					if !ptr && mb.Derefs == 0 {
+						continue // write into the local copy of a value receiver
+					}
 					n++
-					r.Bad("A6.keeper-mutation", fn(f)+"|"+nm, pos(c, in), "keepers, decorators and module objects are never mutated on a consensus path (no state outside the KVStore)", "store through "+p.Name())
+					r.Bad(rule, fn(f)+"|"+nt.Obj().Name(), pos(c, in), "keepers, decorators and module objects, and memory they hold, are never written on a consensus path (no state outside the KVStore: it would not survive a restart, and a discarded CheckTx/simulate/proposal branch would not undo it)", what+" to memory reachable from "+mb.P.Name()+" ("+nt.Obj().Name()+")")
+					break
 				}
 			}
 		}
 	}
 	if n == 0 {
-		r.OK("A6.keeper-mutation", "none", "", "no store through a keeper/decorator/module receiver on consensus paths")
+		r.OK(rule, "none", "", "no write to memory held by a keeper/decorator/module object on consensus paths")
 	}
 }
 
@@ -441,8 +500,8 @@ var blockPanicReviewed = map[string]string{
 func C14(c *Ctx) {
 	w, r := c.W, c.R
 	r.Explanation = "(A10) abort-source inventory on the block-level roots (BeginBlock, EndBlock, registered invariants) over the repo call graph: every explicit panic and every call of a panicking SDK API reachable from them is enumerated; each must be discharged by its class — lookup of an id read from the queue section it iterates (found / status panics, consistent by C03's writer rules), error of a setter that fails only on an invalid constant, permission panics excluded by the evaluated maccPerms (enterprise holds Minter and Staking) — or appear in the reviewed table keyed by function, kind and ordinal; anything else is a violation. " +
-		"Denomination provenance: a Coin.Add/Sub on a block-level path whose operands take their denomination from different sources (module parameter vs stored record) is flagged. (b) handlers and ante decorators keep all state in the transaction-scoped stores: C01's out-of-band-state rule restricted to MSG ∪ ANTE roots, so baseapp's rollback covers everything a failed transaction did. Atomicity and panic recovery of runTx are trusted; reachability of reviewed panics over all histories is not decided."
-	r.Rules = []string{"A10.block-panics", "A2.panic-class", "A10.denom-provenance", "A5.module-permissions", "A6.tx-scoped-state"}
+		"Denomination provenance: a Coin.Add/Sub on a block-level path whose operands take their denomination from different sources (module parameter vs stored record) is flagged. (b) handlers and ante decorators keep all state in the transaction-scoped stores: C01's out-of-band-state rule restricted to MSG ∪ ANTE roots, so baseapp's rollback covers everything a failed transaction did. (c) error discipline (A8): on every transaction, block and genesis path the error result of a call that can change state (store write/delete or bank move, directly or through in-scope callees) has at least one use — a discarded error would let a handler commit the remaining steps of a half-failed operation, since baseapp rolls back only on a returned error. Atomicity and panic recovery of runTx are trusted; reachability of reviewed panics over all histories is not decided."
+	r.Rules = []string{"A10.block-panics", "A2.panic-class", "A10.denom-provenance", "A5.module-permissions", "A6.tx-scoped-state", "A8.error-propagation"}
 	r.Trusted = []string{"baseapp runTx: cache-wrapped stores, panic recovery, all-or-nothing message execution", "reasons in the reviewed table"}
 	r.NotDecided = []string{"that reviewed panics are unreachable for every history", "commit/IAVL failures"}
 
@@ -529,6 +588,28 @@ func C14(c *Ctx) {
 		r.OK("A6.tx-scoped-state", "none", "", "no package-variable write, I/O or goroutine on transaction paths")
 	}
 	keeperMutation(c, tfs)
+
+	// (c) error discipline: the error of a state-changing step is never discarded
+	escope := consensusScope(c, []string{"MSG", "ANTE", "BEGIN", "END", "INITGEN"})
+	var efs, ffs []*ssa.Function
+	for f := range escope {
+		if !w.IsGenerated(f) && !ir.IsFixture(f) {
+			efs = append(efs, f)
+		}
+	}
+	for _, f := range w.Funcs {
+		if ir.IsFixture(f) && strings.Contains(fn(f), "fixtures/c14") {
+			ffs = append(ffs, f)
+		}
+	}
+	sortFuncs(efs)
+	sortFuncs(ffs)
+	sites, _ := errorPropagation(c, efs, "A8.error-propagation")
+	r.Floor("state-changing fallible call sites on transaction/block/genesis paths", sites, 40)
+	mark := len(r.Obls)
+	_, ctl := errorPropagation(c, ffs, "A8.error-propagation")
+	r.Obls = r.Obls[:mark] // fixture findings are controls, not findings about /repo
+	r.Control("A8.error-propagation", "fixtures/c14", ctl >= 2)
 }
 
 func blockAPI(c *Ctx, f *ssa.Function, call *ssa.Call, e *ir.Expr, kind, key string) {
